@@ -229,7 +229,7 @@ instance (v : EofLen) (n : Nat) : Decidable (prodosTooLong v n) := by unfold pro
 
 def prodosPackRaw (v : EofLen) (f : FImg) (d : Bytes) : Res FImg :=
   if prodosTooLong v d.length then .err
-  else .ok { desequence f d with fsType := [4], access := [prodosAccess] }
+  else .ok { desequence f d with fsType := [4], aux := [0, 0], access := [prodosAccess] }
 
 def prodosPackBin (v : EofLen) (f : FImg) (d : Bytes) (addr : Option Nat) (trailing : Bytes) : Res FImg :=
   if prodosTooLong v (d ++ trailing).length then .err
@@ -284,7 +284,7 @@ def prodosPackTok (v : EofLen) (dv : Deduce) (f : FImg) (tok : Bytes) (lang : La
       match deduce dv tok with
       | some a => .ok { g with fsType := [0xfc], aux := u16le a }
       | none => .panic
-    | .integer => .ok { g with fsType := [0xfa] }
+    | .integer => .ok { g with fsType := [0xfa], aux := [0, 0] }
     | .other => .err
 
 /-! ## Pascal, CP/M, FAT -/
